@@ -169,9 +169,12 @@ func VPH_table() {
 	par := []uint32{0, 5, 10, 15}[vp_Choice("parents", 4)]     // reference 10
 	ent := []uint32{0, 999, 1000, 1999}[vp_Choice("entries", 4)] // reference 1000
 	lnk := []uint32{0, 25000, 49999}[vp_Choice("links", 3)]      // reference 25e3
+	var rendered []uint64
 	if !vp_Native() {
-		// numerals are C12's subject; keep them out of the table text
+		// numerals are C12's subject; keep them out of the table text, but record what is rendered
 		vp_Stub("(*github.com/github/git-sizer/counts.Humaner).Format", func(h *counts.Humaner, v counts.Humanable, unit string) (string, string) {
+			n, _ := v.ToUint64()
+			rendered = append(rendered, n)
 			return "1", unit
 		})
 	}
@@ -200,6 +203,23 @@ func VPH_table() {
 	vp_Assert(!has("Overall repository size") && !has("History structure"), "sections without rows are omitted")
 	if any {
 		vp_Assert(strings.Count(out, "| Name ") == 1, "one header")
+	}
+	if !vp_Native() {
+		// each table value is the rendering of the exact measurement (the same cell JSON prints)
+		var wantR []uint64
+		if showPar {
+			wantR = append(wantR, uint64(par))
+		}
+		if showEnt {
+			wantR = append(wantR, uint64(ent))
+		}
+		if showLnk {
+			wantR = append(wantR, uint64(lnk))
+		}
+		vp_Assert(len(rendered) == len(wantR), "one numeral per shown row")
+		for i := 0; i < len(wantR) && i < len(rendered); i++ {
+			vp_Assert(rendered[i] == wantR[i], "the table renders the exact measurement of its row")
+		}
 	}
 	vp_Reach("end")
 }
